@@ -419,6 +419,8 @@ class Gen:
         args = []
         kwargs = []
         nparams = len(callee.params)
+        # sometimes every argument is passed by keyword, written in any order
+        all_kw = self.has("kwargs") and ch.coin(0.2, "all-kw")
         for j, (pname, pkind, pdefault) in enumerate(callee.params):
             if pkind == "uniq":
                 self.unique += 1
@@ -430,15 +432,31 @@ class Gen:
                 node = ("lit", gen_value(ch, pkind))
             else:
                 node = self.gen_arg(pkind, env, owner, depth)
-            if self.has("kwargs") and j == nparams - 1 and ch.coin(0.3, "as-kw"):
+            if all_kw or (self.has("kwargs") and j == nparams - 1 and ch.coin(0.3, "as-kw")):
                 kwargs.append((pname, node))
             else:
                 args.append(node)
+        if len(kwargs) > 1 and ch.coin(0.6, "kw-order"):
+            kwargs.reverse()
         opts: dict[str, Any] = {}
         if self.has("partial") and len(args) >= 1 and not kwargs and ch.coin(0.15, "partial?"):
             opts["partial"] = 1 + ch.choice(len(args), "partial-k") if len(args) > 1 else 1
         if self.has("ctx") and ch.coin(self.cfg.p_ctx, "ctx?"):
             opts["ctx"] = self.gen_ctx()
+            if ch.coin(0.3, "ctx-chained"):
+                # t.update_context(A).update_context(B): the effective override is the deep
+                # merge of both (opts["ctx"]); the source shows the chain
+                from .refinterp import merge_dicts
+
+                a, b = opts["ctx"], self.gen_ctx()
+                if isinstance(a.get("n"), dict) and ch.coin(0.7, "ctx-chain-same-mapping"):
+                    # both overrides reach into the same nested mapping with different keys
+                    other = "q" if "p" in a["n"] else "p"
+                    b = {"n": {other: 10 + ch.choice(5, "ctx-val")}}
+                elif isinstance(a.get("m"), dict) and ch.coin(0.7, "ctx-chain-same-mapping"):
+                    b = {"m": {"t": 10 + ch.choice(5, "ctx-val")}}
+                opts["ctx_chain"] = [a, b]
+                opts["ctx"] = merge_dicts([a, b])
         if self.cfg.opt_mode and not opts.get("partial"):
             def optval():
                 if owner is not None and ch.coin(0.2, "opt-expr"):
@@ -475,8 +493,10 @@ class Gen:
                     opts = dict(node[4])
                     if ch.coin(0.4, "dup-no-ctx"):
                         opts.pop("ctx", None)
+                        opts.pop("ctx_chain", None)
                     else:
                         opts["ctx"] = self.gen_ctx()
+                        opts.pop("ctx_chain", None)
                     node = (node[0], node[1], node[2], node[3], opts)
                 return node
         if not deep:
@@ -805,7 +825,10 @@ def expr_src(prog: Program, node: Any) -> str:
     if k == "call":
         _, tidx, args, kwargs, opts = node
         callee = prog.tasks[tidx].name
-        if opts.get("ctx") is not None:
+        if opts.get("ctx_chain"):
+            for c in opts["ctx_chain"]:
+                callee += f".update_context({lit_src(c)})"
+        elif opts.get("ctx") is not None:
             callee += f".update_context({lit_src(opts['ctx'])})"
         o_src = e_src = ""
         if opts.get("options"):
